@@ -106,3 +106,71 @@ Proof.
   intros Hno Hr Hin. pose proof (loop_insync late h ast0 a ms eq_refl Hno Hr) as H.
   unfold no_insync in H. rewrite Forall_forall in H. by apply (H _ Hin).
 Qed.
+
+(* ------------------------------------------------------------------ the loop's whole output stream *)
+(* The loop decides by itself when to flush (dirty flag, leaky bucket), so the contract has to hold after every
+   update batch: callbacks inside cb_ok, and the upstream world reference-closed at the end of each batch. *)
+From Verif.C02 Require Import ProofsKV ProofsMain ProofsCb Proofs.
+
+Fixpoint cbs_ok (w : world) (cbs : list cb) : Prop :=
+  match cbs with [] => True | e :: r => cb_ok w e ∧ cbs_ok (apply_cb w e) r end.
+Fixpoint loop_contract (up : world) (h : list (lev * list (tag * N))) : Prop :=
+  match h with
+  | [] => True
+  | (LUpdates cbs, _) :: r => cbs_ok up cbs ∧ closed (apply_cbs up cbs) ∧ loop_contract (apply_cbs up cbs) r
+  | _ :: r => loop_contract up r
+  end.
+
+Lemma on_cbs_ok cbs : ∀ s up dp,
+  Sync s up dp → cbs_ok up cbs → ∃ s', on_cbs cbs s = Some s' ∧ Sync s' (apply_cbs up cbs) dp.
+Proof.
+  induction cbs as [|e r IH]; intros s up dp HS Hok; simpl in *; [eauto|].
+  destruct Hok as [He Hr]. destruct (cb_step _ _ _ _ HS He) as (s1 & -> & HS1). simpl. eauto.
+Qed.
+
+Lemma maybe_flush_ok o a up dp :
+  Sync (a_seq a) up dp → closed up →
+  let '(a', ms) := maybe_flush true o a in
+  stream_ok dp ms ∧ ∃ dp', Sync (a_seq a') up dp' ∧ apply_msgs dp ms = dp'.
+Proof.
+  intros HS Hcl. unfold maybe_flush. destruct (negb (a_dirty a)); [simpl; eauto|].
+  destruct (a_bucket a); [simpl; eauto|].
+  destruct (flush_gen true o (a_seq a)) as [s' ms] eqn:Ef.
+  destruct (flush_ok true o _ _ _ _ _ HS Hcl ltac:(done) Ef) as (Hok & Hd & HS').
+  simpl. split.
+  - apply stream_ok_app; [done|]. rewrite Hd. destruct (a_need_insync a); simpl; [|done].
+    split_and!; done.
+  - exists up. split; [done|]. rewrite apply_msgs_app, Hd. by destruct (a_need_insync a).
+Qed.
+
+Lemma loop_ok : ∀ h a up dp,
+  Sync (a_seq a) up dp → closed up → loop_contract up h →
+  ∃ a' ms, loop_run true a h = Some (a', ms) ∧ stream_ok dp ms.
+Proof.
+  induction h as [|[e o] h IH]; intros a up dp HS Hcl Hc; simpl in *; [by exists a, []|].
+  assert (Hstep : ∃ a1 up1, loop_contract up1 h ∧ closed up1 ∧ Sync (a_seq a1) up1 dp ∧
+            loop_step true a e o = Some (maybe_flush true o a1)).
+  { unfold loop_step. destruct e as [cbs|st| |]; simpl.
+    - destruct Hc as (Hok & Hcl1 & Hc). destruct (on_cbs_ok _ _ _ _ HS Hok) as (s1 & -> & HS1). simpl.
+      eexists _, _. split_and!; [exact Hc|exact Hcl1| |simpl; reflexivity]; done.
+    - destruct (st && negb (a_sync_done a)); eexists _, up; (split_and!; [done|done| |simpl; reflexivity]; done).
+    - eexists _, up. split_and!; [done|done| |simpl; reflexivity]; done.
+    - eexists a, up. by split_and!. }
+  destruct Hstep as (a1 & up1 & Hc1 & Hcl1 & HS1 & ->).
+  pose proof (maybe_flush_ok o a1 up1 dp HS1 Hcl1) as Hmf.
+  destruct (maybe_flush true o a1) as [a2 m1]. destruct Hmf as (Hok1 & dp' & HS2 & Hd). simpl.
+  destruct (IH a2 up1 dp' HS2 Hcl1 Hc1) as (a' & ms & -> & Hok2). simpl.
+  exists a', (m1 ++ ms). split; [done|]. apply stream_ok_app; [done|]. by rewrite Hd.
+Qed.
+
+Lemma loop_stream_ok h a ms :
+  loop_contract world0 h → loop_run true ast0 h = Some (a, ms) → stream_ok world0 ms.
+Proof.
+  intros Hc Hr. destruct (loop_ok h ast0 world0 world0 Sync0 ltac:(apply map_Forall_empty) Hc) as (a' & ms' & Hr' & Hok).
+  rewrite Hr in Hr'. by injection Hr' as <- <-.
+Qed.
+Lemma loop_no_panic h : loop_contract world0 h → is_Some (loop_run true ast0 h).
+Proof.
+  intros Hc. destruct (loop_ok h ast0 world0 world0 Sync0 ltac:(apply map_Forall_empty) Hc) as (a' & ms' & Hr' & _).
+  rewrite Hr'. eauto.
+Qed.
